@@ -927,6 +927,28 @@ theorem C09_calls_regenerated :
     nilValueRule = "valueBytes = []byte{}" := by
   decide
 
+open Hive.Gen.C09Consts in
+/-- **The error handling of every method** — the conditions of all `if`s of ads/map_impl.go (and of the `}); … {` that
+closes `Stream`'s iteration) in source order, regenerated on every run: which results are tested, with which polarity,
+and that `addSize` tolerates exactly `ErrKeyNotFound`.  A swallowed error, a flipped test or a dropped branch changes one
+of these lists. -/
+theorem C09_conditions_regenerated :
+    conds_Set = ["err != nil", "valueBytes == nil", "err != nil", "err != nil",
+      "err := m.tree.Update(keyBytes, valueBytes); err != nil", "err := m.rawKeysStore.Set(key, types.Void); err != nil",
+      "!has", "err := m.addSize(1); err != nil"] ∧
+    conds_Get = ["err != nil", "err != nil", "valueBytes == nil", "err != nil", "consumed != len(valueBytes)"] ∧
+    conds_Has = ["err != nil"] ∧
+    conds_Delete = ["err != nil", "err != nil", "!has", "err := m.tree.Delete(keyBytes); err != nil",
+      "err := m.rawKeysStore.Delete(key); err != nil", "has", "err := m.addSize(-1); err != nil"] ∧
+    conds_Stream = ["iterationErr := m.rawKeysStore.IterateKeys([]byte{}, func...", "err != nil", "valueErr != nil",
+      "valueErr != nil", "callbackErr := callback(key, value); callbackErr != nil", "iterationErr != nil"] ∧
+    conds_Commit = ["err := m.root.Set(IdentifierType(m.tree.Root())); err != nil"] ∧
+    conds_has = ["err != nil"] ∧
+    conds_addSize = ["err != nil && !ierrors.Is(err, kvstore.ErrKeyNotFound)",
+      "err := m.size.Set(uint64(int(size) + delta)); err != nil"] ∧
+    conds_Size = ["err != nil"] := by
+  decide
+
 /-! ## the identifier serializers (`Hive/Model/AdsId.lean`): the root cell goes through them, the import uses the raw root -/
 
 section IdCodecs
